@@ -216,11 +216,14 @@ package scs
 //@ spec func zeroAbove(b *builder, s []Variable, e []Variable) bool = forall k int :: len(e) <= k && k < len(s) ==> denS(b, s[k]) == f0
 //@ contract (*builder).MustBeLessOrEqCst
 //@   props C05
-//   (aBits: the padding loop appends into the spare capacity of the caller's slice)
-//@   assigns *builder.cs, *builder.mtBooleans, aBits
+//   (spare(aBits): the padding loop appends into the spare capacity of the caller's slice)
+//@   assigns *builder.cs, *builder.mtBooleans, spare(aBits)
 //@   requires wfB(builder) && bound != nil
 //@   ensures @bits-bool forall k int :: 0 <= k && k < len(aBits) ==> isBool(denS(builder, aBits[k]))
 //@   ensures @below-bound hiS(builder, aBits, 0) <= *bound
+//   what justifies spare(aBits) in the frame: the caller's elements are as they were
+//@   ensures @elems-kept forall k int :: 0 <= k && k < len(aBits) ==> aBits[k] == old(aBits)[k]
+//@   loop 1 invariant @pad-same forall k int :: 0 <= k && k < len(entry(aBits)) ==> entry(aBits)[k] == old(aBits)[k]
 //@   loop 1 invariant @pad len(entry(aBits)) <= nbBits && i == len(aBits) && len(entry(aBits)) <= i && wfB(builder)
 //   (an append in place writes above the caller's bits: same array means same origin)
 //@   loop 1 invariant @pad-alias alloc(aBits) == alloc(entry(aBits)) ==> aBits[:0] == entry(aBits)[:0]
@@ -244,6 +247,67 @@ package scs
 //@   loop 4 invariant @lex-lt i + 1 >= t && denS(builder, p[i+1]) == f0 ==> hiS(builder, aBits, i + 1) < bhi(*bound, i + 1)
 //@   loop 4 lemma @hi-top hiS(builder, aBits, len(aBits)) == 0
 //@   loop 4 lemma @hi-unfold i >= 0 && isBool(denS(builder, aBits[i])) ==> hiS(builder, aBits, i) == (denS(builder, aBits[i]) == f1 ? 1 : 0) + 2 * hiS(builder, aBits, i + 1)
+
+// ---- Cmp. The two operands are decomposed canonically by bits.ToBinary (verified against the frontend.API
+// contracts, i.e. for ANY builder that satisfies them); here its result is used for THIS builder: the
+// instantiation den := denS(builder, .) is the bridge lemma below (the API contracts of the operations ToBinary
+// uses are the ones proved in this file for denS, resp. assumed for Add / Mul). Top-down induction: res is 0
+// while the high parts agree, and from the first differing bit on it is 1 or -1 and never changes.
+//@ contract (*builder).Cmp
+//@   props C05
+//   (i1, i2: ToBinary hands them to the builder, whose boolean bookkeeping may reorder a linear expression)
+//@   assigns *builder.cs, *builder.mtBooleans, i1, i2
+//@   requires wfB(builder)
+//@   lemma @minus-one ofInt(0 - 1) == fneg(f1) && fneg(f1) != f1 && fneg(f1) != f0
+//@   lemma @bridge den(i1) == denS(builder, i1) && den(i2) == denS(builder, i2)
+//@   loop 1 lemma @bridge-bits1 allBool(bi1) ==> (forall k int :: 0 <= k && k < len(bi1) ==> isBool(denS(builder, bi1[k]))) && hiS(builder, bi1, 0) == bsum(bi1)
+//@   loop 1 lemma @bridge-bits2 allBool(bi2) ==> (forall k int :: 0 <= k && k < len(bi2) ==> isBool(denS(builder, bi2[k]))) && hiS(builder, bi2, 0) == bsum(bi2)
+//@   ensures @cmp denS(builder, result) == (ival(denS(builder, i1)) == ival(denS(builder, i2)) ? f0 : (ival(denS(builder, i1)) > ival(denS(builder, i2)) ? f1 : fneg(f1)))
+//@   loop 1 invariant @range 0 - 1 <= i && i < nbBits && wfB(builder) && len(bi1) == nbBits && len(bi2) == nbBits
+//@   loop 1 invariant @bits (forall k int :: 0 <= k && k < nbBits ==> isBool(denS(builder, bi1[k])) && isBool(denS(builder, bi2[k]))) && hiS(builder, bi1, 0) == ival(denS(builder, i1)) && hiS(builder, bi2, 0) == ival(denS(builder, i2))
+//@   loop 1 invariant @res denS(builder, res) == f0 || denS(builder, res) == f1 || denS(builder, res) == fneg(f1)
+//@   loop 1 invariant @eq denS(builder, res) == f0 ==> hiS(builder, bi1, i + 1) == hiS(builder, bi2, i + 1)
+//@   loop 1 invariant @gt denS(builder, res) == f1 ==> hiS(builder, bi1, i + 1) > hiS(builder, bi2, i + 1)
+//@   loop 1 invariant @lt denS(builder, res) == fneg(f1) ==> hiS(builder, bi1, i + 1) < hiS(builder, bi2, i + 1)
+//@   loop 1 lemma @consts fneg(f1) != f1 && fneg(f1) != f0 && ofInt(0 - 1) == fneg(f1)
+//@   loop 1 lemma @hi-top hiS(builder, bi1, len(bi1)) == 0 && hiS(builder, bi2, len(bi2)) == 0
+//@   loop 1 lemma @hi-unfold1 i >= 0 && isBool(denS(builder, bi1[i])) ==> hiS(builder, bi1, i) == (denS(builder, bi1[i]) == f1 ? 1 : 0) + 2 * hiS(builder, bi1, i + 1)
+//@   loop 1 lemma @hi-unfold2 i >= 0 && isBool(denS(builder, bi2[i])) ==> hiS(builder, bi2, i) == (denS(builder, bi2[i]) == f1 ? 1 : 0) + 2 * hiS(builder, bi2, i + 1)
+
+// ---- comparison with a variable bound: the bound is decomposed canonically, the left side into raw digits
+// (only their recomposition is constrained); the running product p then forces every digit boolean and the
+// number they spell to be at most the bound, exactly as in MustBeLessOrEqCst with the bound's bits as wires.
+//@ contract (*builder).mustBeLessOrEqVar
+//@   props C05
+//@   assigns *builder.cs, *builder.mtBooleans, a
+//@   requires wfB(builder)
+//@   lemma @bridge den(a) == denS(builder, a) && den(iface(bound)) == denT(builder, bound)
+//@   ensures @le ival(denS(builder, a)) <= ival(denT(builder, bound))
+//   the instantiation of ToBinary's results at this builder; booleans spell an integer below 2^len, and the
+//   field-valued digit sum of boolean digits is that integer
+//@   loop 1 lemma @bridge-bound allBool(boundBits) ==> (forall k int :: 0 <= k && k < len(boundBits) ==> isBool(denS(builder, boundBits[k]))) && hiS(builder, boundBits, 0) == bsum(boundBits)
+//@   loop 1 lemma @bridge-a (forall k int :: 0 <= k && k < len(aBits) ==> isBool(denS(builder, aBits[k]))) ==> fsum(aBits, len(aBits)) == ofInt(hiS(builder, aBits, 0)) && 0 <= hiS(builder, aBits, 0)
+//@   loop 1 lemma @hi-top hiS(builder, aBits, len(aBits)) == 0 && hiS(builder, boundBits, len(boundBits)) == 0
+//@   loop 1 lemma @hi-unfold-a i >= 0 && isBool(denS(builder, aBits[i])) ==> hiS(builder, aBits, i) == (denS(builder, aBits[i]) == f1 ? 1 : 0) + 2 * hiS(builder, aBits, i + 1)
+//@   loop 1 lemma @hi-unfold-b i >= 0 && isBool(denS(builder, boundBits[i])) ==> hiS(builder, boundBits, i) == (denS(builder, boundBits[i]) == f1 ? 1 : 0) + 2 * hiS(builder, boundBits, i + 1)
+//@   loop 1 invariant @range 0 - 1 <= i && i < nbBits && wfB(builder) && len(aBits) == nbBits && len(boundBits) == nbBits && len(p) == nbBits + 1 && nbBits == fieldBits()
+//@   loop 1 invariant @inputs den(a) == fsum(aBits, nbBits) && (forall k int :: 0 <= k && k < nbBits ==> isBool(denS(builder, boundBits[k]))) && hiS(builder, boundBits, 0) == ival(denT(builder, bound))
+//@   loop 1 invariant @bools forall k int :: i < k && k < nbBits ==> isBool(denS(builder, aBits[k]))
+//@   loop 1 invariant @lex-bool isBool(denS(builder, p[i+1]))
+//@   loop 1 invariant @lex-eq denS(builder, p[i+1]) == f1 ==> hiS(builder, aBits, i + 1) == hiS(builder, boundBits, i + 1)
+//@   loop 1 invariant @lex-lt denS(builder, p[i+1]) == f0 ==> hiS(builder, aBits, i + 1) < hiS(builder, boundBits, i + 1)
+
+// AssertIsLessOrEqual: a constant bound goes through raw digits of v and MustBeLessOrEqCst, a variable bound through
+// mustBeLessOrEqVar.
+//@ contract (*builder).AssertIsLessOrEqual
+//@   props C05
+//@   assigns *builder.cs, *builder.mtBooleans, v
+//@   requires wfB(builder)
+//@   lemma @bridge den(v) == denS(builder, v)
+//   boolean digits spell a non-negative integer and their field-valued sum is that integer (instantiation of
+//   ToBinary's result at this builder)
+//@   lemma @bridge-bits (forall k int :: 0 <= k && k < len(vBits) ==> isBool(denS(builder, vBits[k]))) ==> fsum(vBits, len(vBits)) == ofInt(hiS(builder, vBits, 0)) && 0 <= hiS(builder, vBits, 0)
+//@   ensures @le ival(denS(builder, v)) <= ival(denS(builder, bound))
 
 // debug information only (symbolic stack, printable terms): emits no constraint, writes only what it allocates
 //@ contract (*builder).newDebugInfo
